@@ -124,6 +124,31 @@ Fixpoint unesc_name (s : bytes) : bytes :=
 (* strs.LastNameletOfFQDNWithEsc: the key under which parseObject stores a child *)
 Definition obj_key (fqdn : list bytes) : bytes := unesc_name (last_namelet fqdn).
 
+(* The same on the fqdn STRING, as the Go code has it.  strs.BuildFQDN joins namelets with '.';
+   strs.SplitWithEsc(fqdn, ".", "%") cuts at every '.' that is not preceded by an odd number of
+   consecutive '%' (IndexWithEsc counts them backwards; scanning forwards with an "escaped" flag
+   is the same thing); LastNameletOfFQDNWithEsc unescapes the last piece. *)
+Definition build_fqdn (parent namelet : bytes) : bytes := parent ++ x2e :: namelet.
+
+Fixpoint split_esc (s cur : bytes) (escd : bool) : list bytes :=
+  match s with
+  | [] => [rev cur]
+  | b :: r =>
+      if escd then split_esc r (b :: cur) false
+      else if Byte.eqb b x25 then split_esc r (b :: cur) true
+      else if Byte.eqb b x2e then rev cur :: split_esc r [] false
+      else split_esc r (b :: cur) false
+  end.
+
+Definition last_namelet_str (fqdn : bytes) : bytes := unesc_name (last (split_esc fqdn [] false) []).
+
+(* the escape state after scanning a string: true = it ends in an odd run of '%' *)
+Fixpoint esc_state (s : bytes) (escd : bool) : bool :=
+  match s with
+  | [] => escd
+  | b :: r => if escd then esc_state r false else esc_state r (Byte.eqb b x25)
+  end.
+
 (* key under which a child is identified inside its parent's public content *)
 Definition kid_key (parent : kind) (c : vdecl) : bytes :=
   match parent with KObject => obj_key (v_fqdn (vd_info c)) | _ => [] end.
